@@ -53,7 +53,7 @@ theorem delete_updates_and_broadcasts_under_write_lock :
 
 /-! ### getAsync: synchronous attempt under the read lock, the waiter re-evaluates under the write lock -/
 theorem getAsync_sync_attempt_under_read_lock :
-    dominates g_Buffer_getAsync (is K.rlock S.Buffer_mutex) (is K.call S.get) = true ∧
+    dominates g_Buffer_getAsync (is K.rlock S.Buffer_mutex) (is K.call S.Buffer_get) = true ∧
     noInline g_Buffer_getAsync (is K.runlock S.Buffer_mutex) = true := by decide
 theorem getAsync_waiter_under_write_lock :
     dominates g_Buffer_getAsync_0 (is K.lock S.Buffer_mutex) (is K.call S.WaitCond) = true ∧
